@@ -58,11 +58,16 @@ func (f *File) Apply(filename string, src []byte) ([]byte, error) {
 
 		cl := engine.NewChangelog()
 
-		fout, err = c.Replace(d, cl)
+		out, err := c.Replace(d, cl)
+		if errors.Is(err, engine.ErrUnchanged) {
+			// Nothing could be rewritten: the same as no match.
+			continue
+		}
 		if err != nil {
 			retErr = errors.Join(retErr, err)
 			continue
 		}
+		fout = out
 
 		snap = snap.Diff(fout, cl)
 		fout.Comments = cleanupFilePos(f.fset.File(fout.Pos()), cl, fout.Comments)
